@@ -360,7 +360,7 @@ def explore(build, prop, cfg_label, max_depth=None, max_states=None, exc_policy=
                     key = f"exc:{obs[1]}@{obs[2]}"
                     vs = vs + [(key, f"{obs[1]} escaped {obs[2]} after {len(h2)} protocol-legal events: {obs[3]}")]
             else:
-                cov.outcome(":".join(str(x) for x in (obs[:2] if obs[0] == "suggest" else (obs[0], obs[-1]))))
+                cov.outcome(obs[0] if obs[0] in ("error", "complete") else ":".join(str(x) for x in (obs[:2] if obs[0] == "suggest" else (obs[0], obs[-1]))))
             if vs:
                 for key, what in vs:
                     key = f"{ctx}|{key}" if ctx else key
